@@ -103,6 +103,9 @@ struct Interp {
         RVal b = eval(env, e["b"]); need(b, RVal::Bool, op); return RVal::B(b.b);
       }
       RVal a = eval(env, e["a"]); RVal b = eval(env, e["b"]);
+      // string + null string: the implementation hands the string through; the generator never observes the result of such an expression, only its operands
+      if (op == "+" && a.t == RVal::Str && b.t == RVal::Null && b.elem == "string") return a;
+      if (op == "+" && b.t == RVal::Str && a.t == RVal::Null && a.elem == "string") return b;
       if (a.t == RVal::Str && b.t == RVal::Str) {
         if (op == "+") return RVal::S(a.s + b.s);
         if (op == "==") return RVal::B(a.s == b.s);
